@@ -35,7 +35,8 @@ META = {
                  'the native replay runs the unmodified function',
                  'after each construction step the harness asserts Size()/Capacity() equal the values predicted by the spec and writes the same '
                  'literals back through setSize/setCapacity (-Dprivate=public): a no-op on the state that lets CBMC see allocation sizes as constants',
-                 'construction-step classes are enumerated across queries, not symbolic within one query'],
+                 'construction-step classes are enumerated across queries, not symbolic within one query; for the two-table operations (+=, assignment) '
+                 'the observer groups are checked in two queries (.../obs3: visiting order + every model entry found, .../obs12: probe key + any index)'],
 }
 OPS = {'NONE': 0, 'INSERT': 1, 'INSERT_PTR': 2, 'INSERT_CREF': 3, 'GET': 4, 'INDEX_KEY': 5, 'INDEX_MOVE': 6, 'REMOVE': 7, 'REMOVE_PTR': 8,
        'REMOVE_INDEX': 9, 'RENAME': 10, 'RENAME_CREF': 11, 'MERGE_COPY': 12, 'MERGE_MOVE': 13, 'RESERVE': 14, 'RESIZE': 15, 'EXPECT': 16,
@@ -50,14 +51,6 @@ def pow2(n):
     p = 1
     while p < n: p <<= 1
     return p
-
-def chain(c0, n):
-    """capacities a table constructed with capacity c0 can take during n inserts (doubling when full)"""
-    s = set(); c = pow2(c0) if c0 else 0
-    if c: s.add(c)
-    elif n >= 1: c = 2; s.add(c)
-    while c and c < n: c *= 2; s.add(c)
-    return s
 
 CLS = {'G': 1, 'D': 2, 'R': 3}     # step classes: Grow (insert a new key), Duplicate (insert an existing key), Remove (an existing key)
 
@@ -124,9 +117,6 @@ HLIST_OPS = ('NONE', 'INSERT', 'INSERT_PTR', 'INSERT_CREF', 'REMOVE', 'REMOVE_IN
              'COPY_CTOR', 'MOVE_ASSIGN')
 POST_OPS = (('CLEAR', 0), ('SORT_ASC', 0), ('COMPRESS', 0), ('RESIZE', 1), ('RESERVE', 3), ('COPY_CTOR', 0), ('MERGE_MOVE', 0), ('RENAME', 0),
             ('REMOVE_INDEX', 0), ('RESET', 0), ('MOVE_CTOR', 0), ('RESIZE', 0))
-
-def valid(pat, cap):
-    return simulate(pat, cap) is not None
 
 def op_queries(pat, cap, pat2, cap2, args, ops=None, **kw):
     qs = []
